@@ -5,25 +5,38 @@ import (
 	"math/rand/v2"
 	"os"
 	"path/filepath"
+	"regexp"
 	"strings"
 )
 
 // extraSpec describes one extra gombok input package.
 type extraSpec struct {
 	Name     string
-	External bool // external module with a replace directive instead of a package inside the copy
+	Kind     string // wide | shop | given | multi
+	External bool   // external module with a replace directive instead of a package inside the copy
 	MinF     int
 	MaxF     int
 	Structs  int
+	N        int  // given: competing instance packages; multi: source files
+	SameName bool // given: the instance packages share one package name (import alias numbering)
+	// OrderSensitive units get the larger number of repeated process starts (see repeats)
+	OrderSensitive bool
 }
 
 func extraSpecs(tier string) []extraSpec {
 	all := []extraSpec{
-		{Name: "c13wide1", MinF: 10, MaxF: 22, Structs: 1},
-		{Name: "c13shop", External: true},
-		{Name: "c13wide2", MinF: 23, MaxF: 40, Structs: 1},
-		{Name: "c13wide3", MinF: 6, MaxF: 14, Structs: 4},
-		{Name: "c13wide4", MinF: 12, MaxF: 30, Structs: 2},
+		{Name: "c13wide1", Kind: "wide", MinF: 10, MaxF: 22, Structs: 1},
+		{Name: "c13shop", Kind: "shop", External: true},
+		{Name: "c13wide2", Kind: "wide", MinF: 23, MaxF: 40, Structs: 1},
+		{Name: "c13wide3", Kind: "wide", MinF: 6, MaxF: 14, Structs: 4},
+		{Name: "c13wide4", Kind: "wide", MinF: 12, MaxF: 30, Structs: 2},
+		{Name: "c13given1", Kind: "given", N: 2, OrderSensitive: true},
+		{Name: "c13given2", Kind: "given", N: 3, OrderSensitive: true},
+		{Name: "c13given3", Kind: "given", N: 4, SameName: true, OrderSensitive: true},
+		{Name: "c13given4", Kind: "given", N: 2, SameName: true, OrderSensitive: true},
+		{Name: "c13multi1", Kind: "multi", N: 3, OrderSensitive: true},
+		{Name: "c13multi2", Kind: "multi", N: 4, OrderSensitive: true},
+		{Name: "c13multi3", Kind: "multi", N: 5, OrderSensitive: true},
 	}
 	return all // same packages in both tiers; the tiers differ in the number of repeats
 }
@@ -300,6 +313,8 @@ type extra struct {
 	inputs map[string][]byte // rel (to pkg dir) -> content
 	o0     *passRes
 	o0pkg  snapshot
+
+	contests []contest
 }
 
 func (k *worker) pkgSnap(e *extra, s snapshot) snapshot {
@@ -320,7 +335,9 @@ func (k *worker) setState(e *extra, withGenerated bool) {
 	os.RemoveAll(dir)
 	os.MkdirAll(dir, 0o755)
 	for n, b := range e.inputs {
-		if err := os.WriteFile(filepath.Join(dir, n), b, 0o644); err != nil {
+		t := filepath.Join(dir, filepath.FromSlash(n))
+		os.MkdirAll(filepath.Dir(t), 0o755)
+		if err := os.WriteFile(t, b, 0o644); err != nil {
 			panic(err)
 		}
 	}
@@ -363,7 +380,23 @@ func (k *worker) runExtra(sp extraSpec) {
 	} else {
 		e.root = k.tree
 		e.d = Directive{Dir: "test/internal/c13x/" + sp.Name, File: sp.Name + ".go", Package: sp.Name, Generator: "gombok", Cmd: "go run " + k.sh.Plan.Module + "/cmd/gombok"}
-		e.inputs[sp.Name+".go"] = []byte(synthWide(r, sp))
+		switch sp.Kind {
+		case "given", "multi":
+			unitPath := k.sh.Plan.Module + "/" + e.d.Dir
+			var files map[string]string
+			var genFile string
+			if sp.Kind == "given" {
+				files, genFile, e.contests = synthGiven(r, sp, unitPath)
+			} else {
+				files, genFile = synthMulti(r, sp, unitPath)
+			}
+			for n, c := range files {
+				e.inputs[n] = []byte(c)
+			}
+			e.d.File = genFile
+		default:
+			e.inputs[sp.Name+".go"] = []byte(synthWide(r, sp))
+		}
 	}
 	for i, l := range strings.Split(string(e.inputs[e.d.File]), "\n") {
 		if strings.HasPrefix(l, "//go:generate ") {
@@ -377,7 +410,14 @@ func (k *worker) runExtra(sp extraSpec) {
 		var cur *passRes
 		kind := "extra:determinism"
 		witness := func() any {
-			m := map[string]any{"extra_package": sp.Name, "external_module": sp.External, "pass": i, "gomaxprocs": k.procs(i), "input": string(e.inputs[e.d.File])}
+			m := map[string]any{"extra_package": sp.Name, "kind": sp.Kind, "external_module": sp.External, "pass": i, "gomaxprocs": k.procs(i), "gomaxprocs_pass0": k.procs(0), "input": string(e.inputs[e.d.File])}
+			if len(e.inputs) > 1 {
+				all := map[string]string{}
+				for n, c := range e.inputs {
+					all[n] = string(c)
+				}
+				m["input_files"] = all
+			}
 			if cur != nil {
 				m["record"] = sampleOf(cur, kind)
 			}
@@ -397,6 +437,9 @@ func (k *worker) runExtra(sp extraSpec) {
 					}
 				}
 				w.Add("extra_generated_files", int64(nGen))
+				if nGen > 0 {
+					w.Add("extra_units_with_output."+sp.Kind, 1)
+				}
 				if nGen == 0 {
 					w.Add("extras_without_output", 1)
 					w.Note(fmt.Sprintf("extra package %s: gombok wrote no file: %s", sp.Name, tailStr(e.o0.Runs[0].Output, 300)))
@@ -404,6 +447,7 @@ func (k *worker) runExtra(sp extraSpec) {
 				if w.WantSample() {
 					w.Sample(sampleOf(e.o0, kind))
 				}
+				k.observeContests(e)
 				return
 			}
 			k.needO0(e)
@@ -414,6 +458,9 @@ func (k *worker) runExtra(sp extraSpec) {
 			}
 			cur = k.pass(e.root, []Directive{e.d}, func(int) int { return k.procs(i) }, true)
 			w.Add("repeated_runs", 1)
+			if sp.OrderSensitive {
+				w.Add("order_sensitive.repeated_runs", 1)
+			}
 			got := k.pkgSnap(e, cur.After)
 			for _, d := range k.compare(got, e.o0pkg) {
 				what := fmt.Sprintf("%s (%s)", d.Path, d.Kind)
@@ -435,5 +482,47 @@ func (k *worker) runExtra(sp extraSpec) {
 			}
 		})
 		w.Done(i)
+	}
+}
+
+// observeContests records (evidence only, never a verdict) which of the competing imported
+// packages the first generation resolved each contested instance to.
+func (k *worker) observeContests(e *extra) {
+	if len(e.contests) == 0 {
+		return
+	}
+	w := k.w
+	var gen []byte
+	for p, b := range e.o0.Content {
+		if strings.HasSuffix(p, "_derive_generated.go") {
+			gen = b
+		}
+	}
+	for _, c := range e.contests {
+		if c.Offers < 2 {
+			continue
+		}
+		w.Add("import_given.contested_instances", 1)
+		re := regexp.MustCompile(`\b(\w+)\.` + c.Symbol + `\b`)
+		users := map[string]bool{}
+		for _, m := range re.FindAllSubmatch(gen, -1) {
+			users[string(m[1])] = true
+		}
+		switch {
+		case len(users) == 0:
+			w.Add("import_given.contested_instance_not_used", 1)
+		case len(users) > 1:
+			w.Add("import_given.contested_instance_resolved_to_several_packages", 1)
+			w.Note(fmt.Sprintf("extra %s: %s is taken from several packages in one output: %v", e.sp.Name, c.Symbol, sortedKeys(users)))
+		case c.First == "":
+			w.Add("import_given.contested_instance_resolved_to_one_package", 1)
+		case users[c.First]:
+			w.Add("import_given.contested_instance_resolved_to_one_package", 1)
+			w.Add("import_given.first_directive_wins", 1)
+		default:
+			w.Add("import_given.contested_instance_resolved_to_one_package", 1)
+			w.Add("import_given.other_than_first_directive_wins", 1)
+			w.Note(fmt.Sprintf("extra %s: %s resolved to %v although the first @fp.ImportGiven directive that offers it names %s", e.sp.Name, c.Symbol, sortedKeys(users), c.First))
+		}
 	}
 }
